@@ -1425,3 +1425,28 @@ SPECS["C05"]["families"] += [
     dict(name="chunkerw", quick=240, thorough=16000, search=2000, shards=dict(quick=2, thorough=16)),
     dict(name="readerw", quick=150, thorough=8000, search=1000, shards=dict(quick=6, thorough=16)),
 ]
+SPECS["C05"]["lean_modules"] += ["Woodpile.Props.C05S"]
+SPECS["C05"]["theorems"] += [
+    "Woodpile.Props.C05S.pump_is_wrun",
+    "Woodpile.Props.C05S.pump_reachable",
+    "Woodpile.Props.C05S.chunk_slices_live",
+    "Woodpile.Props.C05S.reader_inv",
+    "Woodpile.Props.C05S.reader_inv_new",
+    "Woodpile.Props.C05S.reader_inv_calls",
+    "Woodpile.Props.C05S.record_slices_live",
+    "Woodpile.Props.C05S.record_guarded",
+    "Woodpile.Props.C05S.reader_chunks_live",
+]
+SPECS["C05"]["level_text"] += (' Props/C05S (track rdrworld): StreamChunker chunks and StreamReader records. Model/StreamWorld.lean models pump / '
+    'next_record_bytes on the structural World (the arena is a detached ByteArena or the decoder iovec\'s own; StreamChunker::buf and every Chunk::Data '
+    'handed out are detached AnchoredSlices; the record is the iovec self.iovec; clear per retry turn; the iovec and its arena are dropped on every path '
+    'that drops the Decoder while it owns them - `?`, return Ok(None), finish() failing). pump is a run of iovec-family operations (sTake, readNArena/readNIov '
+    'on the chained reader, sDrop, sSkip, sSplit - pump_is_wrun), so a chunker history stays Reachable and Props/C05 applies as stated; chunk_slices_live: every '
+    'non-empty detached slice after a pump (the chunk just handed out, chunks handed out earlier and still held, the buffered tail) lies in a live chunk held by '
+    'its OWN anchor, inside the capacity and below the bump pointer of any arena still allocating from that chunk. The reader\'s world is not a WOp history '
+    '(decode_anchored); next_record_bytes keeps HInv for every judge / block size / reader script and any number of calls (reader_inv, reader_inv_calls), hence '
+    'record_slices_live (every slice of the iovec after a call lies in a live chunk held by the iovec\'s OWN anchors, inside the capacity, below the bump '
+    'pointer), record_guarded, reader_chunks_live. WHAT bytes are returned stays with C06/C08 (byte-level model); that the world-level model returns the same '
+    'bytes AND places every slice where the real code does is checked by the new correspondence families chunkerw / readerw (same op vocabulary and lines as '
+    'chunker / reader plus at=/R slices= placements through the H1 registry and the live set after every call; held-chunk containment + content oracle), not '
+    'proved: the refinement theorem pumpW ⊑ Stream.pump is an open item.')
